@@ -107,7 +107,8 @@ pub fn exercise<X: Transport>(t: &mut X, set_offered: &dyn Fn(u64), set_isr: &dy
         let r = t.get_status();
         op_end(json!({"vl": limbs(r.bits() as u64, 2)}));
     }
-    for isr in 0..4u32 {
+    // (registers hold 32 bits on MMIO, 8 on PCI: the setter truncates as the device would)
+    for isr in [0u32, 1, 2, 3, 4, 5, 0x80, 0xfe, 0x8000_0000, 0xffff_fffc, 0xffff_ffff] {
         set_isr(isr);
         op("ack_interrupt", json!({}));
         let r = t.ack_interrupt();
